@@ -207,6 +207,121 @@ def validator_set(prog, cid):
     for bi, si, st in g.stmts():
         if st["k"] == "assign" and st["rv"]["k"] == "binop" and st["rv"]["op"] in ("Gt", "Ge", "Ne", "Lt", "Le", "Eq"):
             c = const_int(st["rv"]["r"])
-            if c is not None and op_place(st["rv"]["l"]) is not None:
+            if c is not None and op_place(st["rv"]["l"]) is not None and len(g.blocks) <= 2:
                 return (st["rv"]["op"].lower(), c)
-    return ("unknown",)
+    return _validator_by_paths(prog, g)
+
+
+def _validator_by_paths(prog, g):
+    """decision table of a `|v: usize| -> bool` closure written with `matches!`, comparisons with constants, `is_power_of_two`
+    and `&&`/`||`: every path to the return is a conjunction of atoms over v; the accepted set is tabulated over 0..=2*max const+2
+    (a formula over the closure's constants, not a run of the program)"""
+    import operator
+    OPS = {"Gt": operator.gt, "Ge": operator.ge, "Lt": operator.lt, "Le": operator.le, "Eq": operator.eq, "Ne": operator.ne}
+    if g.arg_count != 2:
+        return ("unknown",)
+    consts = [0]
+    paths = []          # list of (conjunction list, result pred)
+    def sym(env, op):
+        c = const_int(op)
+        if c is not None:
+            return ("c", c)
+        l = op_local(op)
+        if l is None:
+            return None
+        pl = op_place(op)
+        if l == 2 and not pl["p"]:
+            return ("v",)
+        if pl["p"] == ["deref"] and env.get(l) == ("refv",):
+            return ("v",)
+        return env.get(l)
+    def walk(b, env, conj, depth):
+        if depth > 40:
+            raise ValueError("deep")
+        env = dict(env)
+        for st in g.blocks[b]["stmts"]:
+            if st["k"] != "assign" or st["place"]["p"]:
+                continue
+            rv, d = st["rv"], st["place"]["l"]
+            if rv["k"] == "use":
+                env[d] = sym(env, rv["op"])
+            elif rv["k"] == "ref" and rv["place"]["l"] == 2 and not rv["place"]["p"]:
+                env[d] = ("refv",)
+            elif rv["k"] == "ref":
+                env[d] = env.get(rv["place"]["l"]) if not rv["place"]["p"] else None
+            elif rv["k"] == "binop" and rv["op"] in OPS:
+                a, c = sym(env, rv["l"]), sym(env, rv["r"])
+                if a == ("v",) and c and c[0] == "c":
+                    consts.append(c[1])
+                    env[d] = ("p", (lambda k, o: (lambda v: o(v, k)))(c[1], OPS[rv["op"]]))
+                elif c == ("v",) and a and a[0] == "c":
+                    consts.append(a[1])
+                    env[d] = ("p", (lambda k, o: (lambda v: o(k, v)))(a[1], OPS[rv["op"]]))
+                else:
+                    env[d] = None
+            elif rv["k"] == "unop" and rv["op"] == "Not" and (sym(env, rv["x"]) or (None,))[0] == "p":
+                env[d] = ("p", (lambda p_: (lambda v: not p_(v)))(sym(env, rv["x"])[1]))
+            else:
+                env[d] = None
+        t = g.blocks[b]["term"]
+        if t["k"] == "return":
+            r = env.get(0)
+            if r is None:
+                raise ValueError("result")
+            paths.append((conj, r))
+        elif t["k"] == "goto":
+            walk(t["target"], env, conj, depth + 1)
+        elif t["k"] == "call":
+            c = t.get("callee") or ""
+            d = t["dest"]["l"]
+            a0 = sym(env, t["args"][0]) if t["args"] else None
+            if c.endswith("<impl usize>::is_power_of_two") and a0 == ("v",):
+                env[d] = ("p", lambda v: v > 0 and (v & (v - 1)) == 0)
+            elif c.endswith("contains") and len(t["args"]) == 2:
+                vals = promoted_array_ints(prog, g, t["args"][0])
+                a1 = sym(env, t["args"][1])
+                if vals is None or a1 not in (("v",), ("refv",)):
+                    raise ValueError("contains")
+                consts.extend(vals)
+                env[d] = ("p", (lambda vs: (lambda v: v in vs))(set(vals)))
+            else:
+                raise ValueError("call " + c)
+            walk(t["target"], env, conj, depth + 1)
+        elif t["k"] == "switch":
+            s_ = sym(env, t["discr"])
+            if s_ == ("v",):
+                vals = [int(v) for v, _ in t["targets"]]
+                consts.extend(vals)
+                for v, tg in t["targets"]:
+                    walk(tg, env, conj + [(lambda k: (lambda x: x == k))(int(v))], depth + 1)
+                walk(t["otherwise"], env, conj + [(lambda ks: (lambda x: x not in ks))(set(vals))], depth + 1)
+            elif s_ and s_[0] == "p":
+                for v, tg in t["targets"]:
+                    if v == "0":
+                        walk(tg, env, conj + [(lambda p_: (lambda x: not p_(x)))(s_[1])], depth + 1)
+                walk(t["otherwise"], env, conj + [s_[1]], depth + 1)
+            elif s_ and s_[0] == "c":
+                tg = [tg for v, tg in t["targets"] if int(v) == s_[1]]
+                walk(tg[0] if tg else t["otherwise"], env, conj, depth + 1)
+            else:
+                raise ValueError("switch")
+        else:
+            raise ValueError("term " + t["k"])
+    try:
+        walk(0, {}, [], 0)
+    except (ValueError, KeyError, IndexError, RecursionError):
+        return ("unknown",)
+    top = min(2 * max(consts) + 2, 1 << 16)
+    def accepts(v):
+        for conj, r in paths:
+            if all(c(v) for c in conj):
+                return bool(r[1]) if r[0] == "c" else (r[1](v) if r[0] == "p" else False)
+        return False
+    acc = [v for v in range(0, top + 1) if accepts(v)]
+    if not acc:
+        return ("set", [])
+    if acc == list(range(acc[0], top + 1)):
+        return ("gt", acc[0] - 1) if acc[0] > 0 else ("any",)
+    if acc[-1] >= top - 1:
+        return ("unknown",)
+    return ("set", acc)
